@@ -15,8 +15,9 @@
     header bytes, the metadata section, the root directory, every leaf directory visited; ReadWindows.v) fails,
     the open returns an error: not a success, not a crash; [C15_reader_degrades] — whatever subset of
     requests fails, the result is the fault-free success, the fault-free crash (there is none: C08) or an error.
-    Left to the fault-injection oracle (every fault index k < N of every scenario, sync and async): tile
-    lookups on a failing stream, the writers' panics, and that the implementation's readers are built from
+    Lookups: [C15_lookup_is_the_model] / [C15_lookup_fail_stop] — a reader-backed tile is one exact fetch of its
+    byte range; a fault on it is an error, never 'no such tile', never other bytes.
+    Left to the fault-injection oracle (every fault index k < N of every scenario, sync and async): the writers' panics, and that the implementation's readers are built from
     fetches as modelled (tied by the fault-free correspondence and the fault enumeration). *)
 Require Import PM.Base PM.Oracles PM.Params PM.Directory PM.Stream PM.DirWriter PM.Archive PM.WriterLogProofs PM.Header PM.TileManager PM.DirReader PM.ReadWindows PM.IOReader PM.IOReaderProofs.
 Open Scope N_scope.
@@ -67,6 +68,16 @@ Theorem C15_reader_degrades : forall cx bad fetch r,
   | Err _ => True
   end.
 Proof. exact open_io_degrades. Qed.
+
+(** tile lookups over the same interface *)
+Theorem C15_lookup_is_the_model : forall img (s : tm) id, backing s = Some img ->
+  (forall off len, aget id (tile_by_id s) = Some (TOffLen off len) -> 1 <= len) ->
+  get_tile_io (img_fetch img) s id = get_tile s id.
+Proof. exact get_tile_io_ideal. Qed.
+Theorem C15_lookup_fail_stop : forall (bad : N -> N -> bool) fetch (s : tm) id off len,
+  aget id (tile_by_id s) = Some (TOffLen off len) -> bad off len = true ->
+  get_tile_io (fail_on bad fetch) s id = Err EOther.
+Proof. exact get_tile_io_fail_stop. Qed.
 
 (** non-vacuity: the empty archive written by the model; failing the root directory window alone makes the open fail *)
 Example C15_reader_example :
